@@ -17,4 +17,16 @@ print('sany: all modules parse' if not bad else 'sany failures: %d' % bad)
 sys.exit(1 if bad else 0)
 " || exit 1
 /venv/bin/python -W ignore harness/standin_selftest.py || exit 1
+# every harness and tool compiles (a syntax error would otherwise surface as a bare exit status of a check)
+/venv/bin/python -W ignore - <<'PY' || exit 1
+import glob, sys
+bad = 0
+for f in sorted(glob.glob('harness/*.py') + glob.glob('tools/*.py')):
+    try:
+        compile(open(f).read(), f, 'exec')
+    except SyntaxError as exc:
+        bad += 1
+        print('SYNTAX ERROR', f, exc)
+sys.exit(1 if bad else 0)
+PY
 echo setup ok
